@@ -443,7 +443,7 @@ fn run(ctx: &mut Ctx) {
         }
     });
     // ---- hook-free variant: a single pulse identifies its slot through avalanches()
-    let m = crate::sim::Model::load(REPO);
+    let m = crate::sim::Model::load(&repo_root());
     ctx.cases("hook-free", ctx.tier.pick(64, 1024), |ctx, _i, rng| {
         ctx.eval();
         get(u32::MAX, &mut cache);
